@@ -3,6 +3,7 @@ package props
 import (
 	"encoding/json"
 	"fmt"
+	"iter"
 	"maps"
 	"runtime/debug"
 	"sort"
@@ -150,6 +151,10 @@ type c20Cont struct {
 	m       map[string]*c20Inst // THE MODEL: plain id -> policy map
 	ever    map[string]bool     // ids that were present at some time (classifies stale entries)
 	lastMut string
+	// an iterator obtained from All() when the container came into being, ranged over again
+	// after every later step, and the model's contents (id -> @id tag) at that moment
+	held     iter.Seq2[cedar.PolicyID, *cedar.Policy]
+	heldSnap map[string]string
 }
 
 func (c *c20Cont) isSet() bool { return c.ps != nil }
@@ -230,8 +235,15 @@ func (r *c20Run) logf(format string, a ...any) {
 func (r *c20Run) newCont(ps *cedar.PolicySet, pm cedar.PolicyMap, m map[string]*c20Inst, how string, keep *c20Cont) *c20Cont {
 	r.nserial++
 	c := &c20Cont{serial: r.nserial, ps: ps, pm: pm, m: m, ever: map[string]bool{}, lastMut: how}
-	for id := range m {
+	c.heldSnap = map[string]string{}
+	for id, in := range m {
 		c.ever[id] = true
+		c.heldSnap[id] = in.tag
+	}
+	if ps != nil {
+		c.held = ps.All()
+	} else {
+		c.held = pm.All()
 	}
 	r.conts = append(r.conts, c)
 	for len(r.conts) > c20MaxLive {
@@ -407,6 +419,28 @@ func (r *c20Run) verify(ct *c20Cont, after string, other *c20Cont) {
 	for _, id := range ids {
 		if !seen[id] {
 			r.failf(sig(T+".All", "misses an id the model contains"), fmt.Sprintf("%s.All() does not yield id %q", ct.name(), id), wit(map[string]any{"id": id}))
+		}
+	}
+	// the iterator obtained when the container was created, ranged over now: an iterator is
+	// either live (the contents now) or a snapshot (the contents when All() was called); it
+	// is never a third thing, e.g. the contents of a map the container no longer uses
+	if ct.held != nil {
+		got := map[string]string{}
+		for id, p := range ct.held {
+			tag := "<nil>"
+			if p != nil {
+				tag = string(p.Annotations()["id"])
+			}
+			got[string(id)] = tag
+		}
+		now := map[string]string{}
+		for id, in := range ct.m {
+			now[id] = in.tag
+		}
+		if !maps.Equal(got, now) && !maps.Equal(got, ct.heldSnap) {
+			r.failf(sig(T+".All (iterator obtained earlier, ranged now)", "yields neither the current contents nor those at the time of the All() call"),
+				fmt.Sprintf("the iterator %s.All() returned when the container was created now yields %v; current contents %v, contents at the time of the call %v", ct.name(), got, now, ct.heldSnap),
+				wit(map[string]any{"yielded": got, "current": now, "at_call_time": ct.heldSnap}))
 		}
 	}
 	if ct.isSet() {
